@@ -115,7 +115,8 @@ func (router *Router) FindRoute(req *http.Request) (*routers.Route, map[string]s
 	var remainingPath string
 	var pathParams map[string]string
 	if len(servers) == 0 {
-		remainingPath = url.Path
+		// the wire form, as when servers are declared: an encoded slash is data, not a separator
+		remainingPath = url.EscapedPath()
 	} else {
 		var paramValues []string
 		server, paramValues, remainingPath = servers.MatchURL(url)
